@@ -32,7 +32,7 @@ ASSUMPTIONS = [
     "a page with no MediaBox anywhere defaults to US Letter (documented fallback)",
     "step budget = 400 monitored events per input byte + 200000",
 ]
-PROBES = ["/Parent points elsewhere", "walk abandoned, then repeated on the same document", "fault:repeat", "fault:self", "fault:ancestor", "fault:root", "fault:cross", "reversed corners", "rotate negative", "indirect attribute", "inherited from grandparent", "consumer stopped early", "page_numbers with maxpages", "eviction happened"]
+PROBES = ["page tree 70 to 300 levels deep", "page tree more than 1000 levels deep", "/Parent points elsewhere", "walk abandoned, then repeated on the same document", "fault:repeat", "fault:self", "fault:ancestor", "fault:root", "fault:cross", "reversed corners", "rotate negative", "indirect attribute", "inherited from grandparent", "consumer stopped early", "page_numbers with maxpages", "eviction happened"]
 TIERS = {
     "quick": {"batches": 16, "runs": 700, "budget_s": 45},
     "thorough": {"batches": 128, "runs": 800, "budget_s": 900},
@@ -336,7 +336,86 @@ def chars_of(item):
             yield from chars_of(c)
 
 
+def deep_tree_case(t, ctx):
+    """A page tree dozens to over a thousand levels deep (a chain of /Pages nodes; every k-th level also lists a page):
+    every page comes out, in order, with the attributes of its nearest ancestors."""
+    depth = t.pick([70, 130, 300, 1200], "deep.depth")
+    every = t.pick([1, 7, 50], "deep.every")
+    ctx.probe("page tree %s levels deep" % ("more than 1000" if depth > 1000 else "70 to 300"))
+    o = {1: {b"Type": Name(b"Catalog"), b"Pages": Ref(10, 0)}}
+    nxt = [10 + depth + 5]
+    want = []  # (page object number, expected rotate, expected mediabox)
+    rot, box = 0, (0.0, 0.0, 612.0, 792.0)
+    for d in range(depth):
+        node = {b"Type": Name(b"Pages"), b"Count": 1}
+        if d:
+            node[b"Parent"] = Ref(9 + d, 0)
+        if d % 40 == 0:
+            rot = (90 * (d // 40)) % 360
+            box = (float(d), 0.0, float(d + 100), 200.0)
+            node[b"Rotate"] = rot
+            node[b"MediaBox"] = [d, 0, d + 100, 200]
+        kids = []
+        if d % every == 0 or d == depth - 1:
+            nxt[0] += 1
+            o[nxt[0]] = {b"Type": Name(b"Page"), b"Parent": Ref(10 + d, 0)}
+            kids.append(Ref(nxt[0], 0))
+            want.append((nxt[0], rot, box, d))
+        o[10 + d] = node
+        node[b"Kids"] = kids
+    # chain the nodes: each node lists its page (if any) first or last, then the next level
+    for d in range(depth - 1):
+        first = t.coin(50, 100, "deep.pagefirst")
+        o[10 + d][b"Kids"] = (o[10 + d][b"Kids"] + [Ref(11 + d, 0)]) if first else ([Ref(11 + d, 0)] + o[10 + d][b"Kids"])
+        o[10 + d]["_pagefirst"] = first
+    # expected order: depth-first
+    order = []
+
+    def expect(d):
+        stack = []
+        while d < depth:
+            mine = [w for w in want if w[3] == d]
+            first = o[10 + d].pop("_pagefirst", True)
+            if first:
+                order.extend(mine)
+            else:
+                stack.append(mine)
+            d += 1
+        while stack:
+            order.extend(stack.pop())
+
+    expect(0)
+    data = docs.build_pdf(o, 1).getvalue()
+    devs = []
+    for caching in (True, False):
+        try:
+            seams.CLOCK.start(400 * (len(data) + 5000))
+            try:
+                got = [(p.pageid, p.rotate, tuple(p.mediabox)) for p in PDFPage.get_pages(BytesIO(data), caching=caching)]
+            finally:
+                seams.CLOCK.stop()
+            exp = [(a, b, c) for a, b, c, _ in order]
+            if got != exp:
+                k = next((i for i, (x, y) in enumerate(zip(got, exp)) if x != y), min(len(got), len(exp)))
+                devs.append(Dev("C04:deep-tree", "tree %d levels deep: %d pages, expected %d; first difference at index %d: %r, expected %r; caching=%s" % (depth, len(got), len(exp), k, got[k : k + 1], exp[k : k + 1], caching)))
+        except seams.SimBudgetExceeded:
+            devs.append(Dev("C04:deep-tree:step-budget-exceeded", "tree %d levels deep; caching=%s" % (depth, caching)))
+        except Exception as e:
+            devs.append(Dev("C04:deep-tree:raise:%s@%s" % (type(e).__name__, where(e)), "tree %d levels deep: %r; caching=%s" % (depth, e, caching)))
+    seen = {}
+    for dv in devs:
+        seen.setdefault(dv.sig, dv)
+    t.note((depth, every))
+    return Outcome(list(seen.values()), scen=repr((depth, every, len(data))), nontrivial=True, sample={"pages": len(order), "nodes": depth, "fault": None, "page_numbers": "None", "maxpages": 0, "expected_indices": [], "file_bytes": len(data), "chunk": "default"})
+
+
 def run(tape, ctx, item=None):
+    if tape.coin(1, 300, "deep.tree"):
+        return deep_tree_case(tape, ctx)
+    return run_tree(tape, ctx, item)
+
+
+def run_tree(tape, ctx, item=None):
     t = tape
     devs = []
     root, nodes, counter = build(t, ctx)
@@ -372,10 +451,10 @@ def run(tape, ctx, item=None):
     ctx.seam("chunk")
     ctx.seam("evict", 1 if ev else 0)
 
-    def guarded(name, fn):
+    def guarded(name, fn, mult=1):
         seams.CHUNK.policy = pol
         seams.EVICT.set(ev)
-        seams.CLOCK.start(budget)
+        seams.CLOCK.start(budget * mult)
         try:
             return fn()
         except seams.SimBudgetExceeded:
@@ -502,7 +581,7 @@ def run(tape, ctx, item=None):
             rest = [p.pageid for p in it]  # the abandoned walk, resumed afterwards
             return first, second, rest
 
-        rw = guarded("create_pages", rewalk)
+        rw = guarded("create_pages", rewalk, mult=4)  # (up to four walks over the tree: four single budgets)
         if rw is not None:
             all_ids = [nd.oid for nd, _, _ in order]
             if rw[0] != all_ids or rw[1] != all_ids or rw[2] != all_ids[min(k_stop, len(all_ids)) :]:
